@@ -12,9 +12,10 @@ import Driver.Tzdb
 import Driver.Fmt
 import Driver.Parse
 import Driver.Cal
+import Driver.Api
 namespace Driver
 
-def handlers : List Handler := [handleC01, handleC07, handleC10, handleC09, handleC04, handleC05, handleC17, handleC08, handleC03, handleZone, handleFmt, handleParse, handleCal]
+def handlers : List Handler := [handleC01, handleC07, handleC10, handleC09, handleC04, handleC05, handleC17, handleC08, handleC03, handleZone, handleFmt, handleParse, handleCal, handleApi]
 
 def dispatch (tbl : ZoneTable) (names : Std.HashMap String Unit) (line : String) : String :=
   let toks := (line.trimAscii.toString.splitOn " ").filter (· ≠ "")
